@@ -195,7 +195,7 @@ def check_mesh_to_mesh(tier, seed):
     obs = []
     for periodic in (True, False):
         for dim in (1, 2, 3) if tier != 'quick' else (1, 2):
-            for (io, ro) in ((2, 2), (4, 2), (4, 4), (6, 2), (2, 4), (2, 6), (4, 6), (6, 4), (8, 2), (2, 8)) if tier != 'quick' else ((2, 2), (4, 2), (2, 4), (4, 6)):
+            for (io, ro) in ((2, 2), (4, 2), (4, 4), (6, 2), (2, 4), (2, 6), (4, 6), (6, 4), (8, 2), (2, 8), (2, 0), (4, 0), (6, 0)) if tier != 'quick' else ((2, 2), (4, 2), (2, 4), (4, 6), (2, 0), (4, 0)):
                 nc1 = 8 if periodic else 7
                 nf1 = 16 if periodic else 15
                 if max(io, ro) >= 8:
@@ -216,6 +216,12 @@ def check_mesh_to_mesh(tier, seed):
                 obs.append(_ob(f'{tag}:nD_is_kronecker_product', np.allclose(T.Pspace.toarray(), Pk, atol=1e-13) and np.allclose(T.Rspace.toarray(), Rk, atol=1e-13)))
                 if io == ro:
                     obs.append(_ob(f'{tag}:R_is_half_P_transposed_per_dimension', np.allclose(R1, 0.5 * P1.T, atol=1e-14)))
+                elif ro == 0:
+                    # restriction of order 0 is injection: one unit entry per coarse point, and injection after prolongation gives the coarse data back
+                    inj = bool(np.all((np.abs(R1) > 1e-14).sum(axis=1) == 1) and np.allclose(R1.sum(axis=1), 1.0, atol=1e-14) and np.allclose(R1 @ P1, np.eye(nc1), atol=1e-12))
+                    G0 = mesh(Pc.init)
+                    G0[...] = rng.randn(*G0.shape)
+                    obs.append(_ob(f'{tag}:order_0_restriction_is_injection', inj and np.allclose(T.restrict(T.prolong(G0)), G0, atol=1e-12)))
                 else:
                     # each operator has ITS OWN order: the restriction is half the transposed interpolation of order rorder, the prolongation the interpolation of order iorder
                     P_ro = mesh_to_mesh(_P(nf1, periodic), _P(nc1, periodic), dict(periodic=periodic, iorder=ro, rorder=ro)).Pspace.toarray()
